@@ -262,6 +262,12 @@ def run(ctx):
             if pv0.get("t") == "arr" and not pv0.get("v"):
                 prevless.add(c0["jws"]["ref"][:8])
         cur_side = side[i] if i < len(side) else None
+        if cur_side and " pe=" in cur_side:
+            cur_side, _, pe = cur_side.partition(" pe=")
+            for ev in [e for e in pe.split(",") if e]:
+                r8, got, want = ev.split(":")
+                if got != want:
+                    violate("C06:payload-event-with-wrong-bytes", f"a payload event for {r8} carried bytes hashing to {got}.. but the transaction declares {want}..", i)
         line = impl[i]
         if line.startswith("panic"):
             violate("C06:harness-panic", line[:200], i)
@@ -387,7 +393,7 @@ def run(ctx):
         if kind == "new":
             prev, lcs_prev, prev_side = o, [], cur_side
     ctx.oblige("oracle:admission-sound/no-trace/idempotent(impl)", not any(s.split(":")[1] in (
-        "rejected-left-trace", "rejected-left-trace-in-digests", "readd-changed-state", "admission-not-exactly-one", "admitted-with-missing-prev", "admitted-with-wrong-clock",
+        "rejected-left-trace", "rejected-left-trace-in-digests", "payload-event-with-wrong-bytes", "readd-changed-state", "admission-not-exactly-one", "admitted-with-missing-prev", "admitted-with-wrong-clock",
         "second-root", "admitted-bad-signature", "admitted-unresolvable-kid", "admitted-wrong-payload", "notification-not-exactly-once", "ref-stored-twice",
         "count-differs-from-stored", "two-roots", "digest-differs-from-stored", "inconsistent-read", "reopen-differs") or
         s.startswith("C06:admitted-malformed") for s in seen_sig),
